@@ -52,6 +52,7 @@ func runC01(p *Prog, r *Report) {
 	callersRebuiltRule(p, r, "C01.R7")
 	vocabularyRule(p, r, "C01.R8", p.Chains())
 	outputPackageRule(p, r, "C01.R9")
+	declaredSignatureRule(p, r, "C01.R10")
 }
 
 // reservedNames reads the initial lookup set from the map literal in namer.New.
